@@ -1,6 +1,133 @@
-/-! line protocol for C08 (stub: no model yet) -/
+import ObiVerif.Model.PEAlign
+import ObiVerif.Driver.Util
+/-! line protocol for C08 (see `harness/c08.go` for the case-line grammar) -/
 namespace ObiVerif.Driver.C08
+open ObiVerif.PEAlign ObiVerif.Driver
 
-def run (_line : String) : String := "bad-op"
+def pathStr (p : Path) : String :=
+  if p.isEmpty then "-" else ",".intercalate (p.map toString)
+
+def parsePath (w : String) : Option Path :=
+  if w = "-" then some [] else (w.splitOn ",").mapM String.toInt?
+
+def adjFn (t : List UInt8) (q : UInt8) : UInt8 := t.getD q.toNat 0
+
+def consStr : Option Cons → String
+  | some c => s!"c={hex c.seq} q={hex c.qual} m={c.nmatch}"
+  | none => "panic"
+
+def optInt : Option Int → String
+  | some v => toString v
+  | none => "-"
+
+def asmStr (a : Assembled) : String :=
+  let md := if a.alignment then "alignment" else "join"
+  let dir := match a.dirLeft with
+    | some true => "left"
+    | some false => "right"
+    | none => "-"
+  s!"{md} s={hex a.seq} q={hex a.qual} dir={dir} as={optInt a.aSingle} bs={optInt a.bSingle} al={a.aliLength} ma={a.nmatch} sc={a.score}"
+
+/-- score of a path whose diagonal column scores are listed in `ps` (replay of a real path, op `pl`) -/
+def scorePs (cA cB : Nat → Int) : Nat → Nat → Path → List Int → Int
+  | i, j, ind :: d :: rest, ps =>
+    let n := (-ind).toNat
+    let m := ind.toNat
+    let k := d.toNat
+    (n : Int) * cA j + (m : Int) * cB i + (ps.take k).foldl (· + ·) 0
+      + scorePs cA cB (i + n + k) (j + m + k) rest (ps.drop k)
+  | _, _, _, _ => 0
+
+structure Settings where
+  fast : Bool
+  rel : Bool
+  delta : Nat
+  minov : Nat
+  idn : Nat
+  idd : Nat
+  a : Bytes
+  qa : Bytes
+  b : Bytes
+  qb : Bytes
+
+def parseSettings (ws : List String) : Option Settings :=
+  match ws with
+  | f :: r :: d :: _gi :: _si :: mo :: idn :: idd :: a :: qa :: b :: qb :: _ => do
+    let f ← f.toNat?
+    let r ← r.toNat?
+    let d ← d.toNat?
+    let mo ← mo.toNat?
+    let idn ← idn.toNat?
+    let idd ← idd.toNat?
+    let a ← unhex a
+    let qa ← unhex qa
+    let b ← unhex b
+    let qb ← unhex qb
+    if a.length ≠ qa.length ∨ b.length ≠ qb.length ∨ a.isEmpty ∨ b.isEmpty ∨ idd = 0 then none
+    else pure ⟨f = 1, r = 1, d, mo, idn, idd, a, qa, b, qb⟩
+  | _ => none
+
+/-- everything after the PEAlign result: consensus and assembled record -/
+def tailStr (st : Settings) (adj : UInt8 → UInt8) (r : PERes) : String :=
+  let c := consensus adj st.a st.qa st.b st.qb r.path
+  match c with
+  | some cc => s!"{consStr c} | {asmStr (assemble st.a st.qa st.b st.qb st.minov st.idn st.idd r cc)}"
+  | none => "panic | panic"
+
+def voteStr (st : Settings) : Vote × String :=
+  if st.fast then
+    let v := fastShift st.rel st.a st.b
+    let fs := if v.num < 0 then "-1" else s!"{v.count}/{v.den}"
+    (v, s!"fc={v.count} ov={over st.a.length st.b.length v.shift} fs={fs}")
+  else (⟨0, 0, -1, 1⟩, "fc=-1 ov=0 fs=-1")
+
+def runPe (ws extra : List String) : String :=
+  match parseSettings ws, extra with
+  | some st, g :: adjh :: sc =>
+    match g.toInt?, unhex adjh, ints? sc with
+    | some g, some adjt, some scl =>
+      let la := st.a.length
+      let lb := st.b.length
+      if scl.length ≠ la * lb then "bad-op" else
+      let arr := scl.toArray
+      let s := fun i j => arr.getD (i * lb + j) 0
+      let (v, vs) := voteStr st
+      let r := if st.fast then peAlignFastFrom s g la lb st.delta v.shift v.count else peAlignExact s g la lb
+      match r with
+      | some r => s!"L={if r.isLeft then 1 else 0} sc={r.score} p={pathStr r.path} {vs} | {tailStr st (adjFn adjt) r}"
+      | none => "panic | panic"
+    | _, _, _ => "bad-op"
+  | _, _ => "bad-op"
+
+def runPl (ws extra : List String) : String :=
+  match parseSettings ws, extra with
+  | some st, [g, adjh, il, p, ps] =>
+    match g.toInt?, unhex adjh, il.toNat?, parsePath p, parsePath ps with
+    | some g, some adjt, some il, some p, some ps =>
+      let la := st.a.length
+      let lb := st.b.length
+      let isLeft := il = 1
+      let sc := if isLeft then scorePs (cALeft g) (cBLeft g la) 0 0 p ps
+                else scorePs (cARight g lb) (cBRight g) 0 0 p ps
+      let (_, vs) := voteStr st
+      let r : PERes := ⟨isLeft, sc, p⟩
+      s!"L={il} sc={sc} p={pathStr p} {vs} | {tailStr st (adjFn adjt) r}"
+    | _, _, _, _, _ => "bad-op"
+  | _, _ => "bad-op"
+
+def run (line : String) : String :=
+  match line.splitOn " | " with
+  | [main, extra] =>
+    match words main with
+    | "pe" :: ws => runPe ws (words extra)
+    | "pl" :: ws => runPl ws (words extra)
+    | ["cons", a, qa, b, qb, p] =>
+      match unhex a, unhex qa, unhex b, unhex qb, parsePath p, unhex extra.trimAscii.toString with
+      | some a, some qa, some b, some qb, some p, some adjt =>
+        if a.length ≠ qa.length ∨ b.length ≠ qb.length then "bad-op"
+        else consStr (consensus (adjFn adjt) a qa b qb p)
+      | _, _, _, _, _, _ => "bad-op"
+    | _ => "bad-op"
+  | _ => "bad-op"
 
 end ObiVerif.Driver.C08
